@@ -71,6 +71,13 @@ CLAIMED = {
                      "overwrites included, int and HashedValue values, then check/retrieve for every lookup and clear(), "
                      "compared with a list-of-(binding, output) reference. The structure hashes its values, so here the solver "
                      "enumerates (n-way forks with a closing coverage obligation) rather than generalises."),
+    "C11": dict(design_ref="DESIGN.md 7/C11",
+                text="Bounded-exhaustive symbolic execution: for every enumerated flat rule head (variables, attribute "
+                     "expressions, reference attributes, constants incl. falsy ones; <=3 fields) and body (joins, or/not, bodies "
+                     "binding only some or none of the variables) and EVERY data valuation, infer(entity(T(...), body)) yields "
+                     "new real instances in one-to-one correspondence with the satisfying assignments: each instance's fields are "
+                     "the values of ONE assignment (identity of pool objects and of the very proxy values), each satisfying "
+                     "assignment has its instance, and the count equals the z3 count of satisfying assignments."),
 }
 
 NOT_APPLICABLE = {pid: PENDING for pid in ["C%02d" % i for i in range(1, 21)] if pid not in CLAIMED}
